@@ -34,6 +34,36 @@ def is_business_daily_range(t, start, end, normalized=None):
     return False, name
 
 
+def day_relative_stamp(ts, day):
+    """ts == midnight(day) + Timedelta(h, m)  ->  (h, m) when the midnight is exact, ('inexact', what) when the day keeps part of its own time of day, None if not of this form"""
+    from .. import terms as T
+    base, off = ts, (0, 0)
+    if ts[0] == 'rat':
+        deltas = [s_ for s_ in T.subterms(ts) if s_[0] == 'call' and s_[1][0] == 'ext' and s_[1][1] in ('pandas.Timedelta', 'datetime.timedelta')]
+        if len(deltas) != 1 or time_of_day(deltas[0]) is None:
+            return None
+        try:
+            base = T.t_sub(ts, deltas[0])
+        except Exception:
+            return None
+        off = time_of_day(deltas[0])
+    if base == day:
+        return ('inexact', 'the day is used with the time of day it inherits from the start of the range')
+    if base[0] == 'call' and base[1] == ('meth', 'normalize') and base[2] == (day,):
+        return off
+    if base[0] == 'call' and base[1] == ('meth', 'floor') and base[2][:1] == (day,) and base[2][1:] in ((('str', 'D'),), (('str', 'd'),), (('str', '1D'),)):
+        return off
+    if base[0] == 'call' and base[1] == ('meth', 'replace') and base[2] == (day,):
+        kws = dict(base[3])
+        if any(v != T.ZERO for v in kws.values()) or not {'hour', 'minute'} <= set(kws):
+            return None
+        missing = [k for k in ('second', 'microsecond', 'nanosecond') if k not in kws]
+        if missing:
+            return ('inexact', 'replace(hour=0, minute=0) leaves the %s of the start\'s time of day in every stamp' % '/'.join(missing))
+        return off
+    return None
+
+
 def clock_events(ctx):
     """decision table of __iter__ over the four flag combinations -> {(pre, post): [(event_type, (h, m)), ...]} and structural facts"""
     fn = ctx.fn(CLS + '.__iter__')
@@ -78,6 +108,14 @@ def clock_events(ctx):
                                     same_day = base[2][:3] == (('attr', day, 'year'), ('attr', day, 'month'), ('attr', day, 'day'))
                                 z = dict(ts[3]).get('tz')
                                 tz = z in (('str', 'UTC'), ('ext', 'pytz.utc'), ('ext', 'pytz.UTC'), ('ext', 'datetime.timezone.utc'))
+                            if tod is None and ts is not None:
+                                # a stamp derived from the day itself: <midnight of the day> + Timedelta(h, m).  The business days carry the START's time of day
+                                # (pd.date_range keeps it), so the day must first be brought to midnight completely: normalize()/floor('D'), or replace() of
+                                # every component down to the nanosecond.  A partial replace keeps the seconds and below: stamps then miss HH:MM:00.
+                                rel = day_relative_stamp(ts, day)
+                                if rel is not None:
+                                    tod = rel
+                                    same_day = tz = True
                             et = f.get('event_type')
                             seq.append((et[1] if et and et[0] == 'str' else '?', tod, (same_day, tz)))
                     seqs.append((seq, cond_str(b)))
@@ -148,6 +186,11 @@ def check(ctx):
                            'the yields also depend on: %s' % [c for s, c in seqs][:3], key='C12.S2|flags-only'):
             continue
         seq = seqs[0][0]
+        inexact = [(a, b[1]) for a, b, c in seq if isinstance(b, tuple) and b and b[0] == 'inexact']
+        if inexact:
+            ctx.violation('C12.S2', 'every event of a day falls exactly on its documented time of day (pre=%s, post=%s)' % (pre, post), where,
+                          '%s: %s' % (inexact[0][0], inexact[0][1]), key='C12.S2|exact-time')
+            continue
         got = [(a, b) for a, b, c in seq]
         if not got or any(a == '?' or b is None for a, b in got):
             # stamps that were recognised as Timestamp(datetime(...)) but not on the day being iterated are wrong whatever their time of day
